@@ -510,6 +510,20 @@ func checkGapTree(t *treegen.Tree, top []byte, res *treegen.Result, registered b
 				}
 			}
 		}
+		if n == t.Root && !n.IsCompound() {
+			// a top value that is a single leaf (formats bits, bytes, and the text
+			// formats): it alone has to account for every bit of the decoded range
+			if L := t.ReaderLen(n.V.RootReader); L >= 0 {
+				want := rng{0, L}
+				if subSpan != nil {
+					want = rng{subSpan.Start, subSpan.Len}
+				}
+				res.Stat("scalar_roots", 1)
+				if got := nodeRng(n); got != want {
+					res.Failf("bits-not-covered", "the top value is a leaf with range %d:%d, the decoded range is %d:%d", got.Start, got.Len, want.Start, want.Len)
+				}
+			}
+		}
 		if !isGapFillRoot(t, n) {
 			continue
 		}
